@@ -10,8 +10,9 @@
    _tskitmodule.c) cannot be exhibited by a Gallina model: only schedule independence of
    the combination logic is proved. *)
 From Coq Require Import List ZArith QArith.
-From TskVerif Require Import C08.Model C08.Incremental C08.Afs C08.Shapes
-  C08.WindowProofs C08.ChunkProofs C08.IncrementalProofs C08.AfsProofs C08.ShapesProofs.
+From TskVerif Require Import C08.Model C08.Incremental C08.Afs C08.Shapes C08.PairSpan
+  C08.WindowProofs C08.ChunkProofs C08.IncrementalProofs C08.AfsProofs C08.ShapesProofs
+  C08.PairSpanProofs.
 Import ListNotations.
 Open Scope Q_scope.
 
@@ -113,3 +114,12 @@ Theorem relatedness_proportion_shape_refuted :
     proportion_shape windows node_mode num_nodes (Some (true, 1%nat)) = None /\
     documented_shape windows node_mode num_nodes (Some (true, 1%nat)) = [2%nat].
 Proof. exact proportion_shape_raises. Qed.
+
+(* REFUTED (finding C08-F3): the span by which pair_coalescence_counts(span_normalise=True)
+   divides is not the non-missing span of the window when a window ends inside an interval
+   without edges. *)
+Theorem pair_coalescence_span_refuted :
+  exists trees ws,
+    trees = w_ptrees /\
+    qlist_eqb (pcc_code_spans trees ws) (pcc_spec_spans trees ws) = false.
+Proof. exact pcc_span_violates_definition. Qed.
